@@ -15,7 +15,7 @@
     known findings allowed (records the line format cannot express; a repeated
     unit-metadata record; a re-printed line over the scanner's limit). *)
 From Perf Require Import Base.Bytes Base.Sx Base.B64 Base.SxF Base.Utf8 Base.Unicode
-  Model.Name Model.Extract Model.Units Model.Reader Model.Files Model.Writer Model.RoundTripSpec Corr.RunC02.
+  Model.Name Model.Extract Model.Units Model.Reader Model.Files Model.ReaderSpec Model.Writer Model.RoundTripSpec Corr.RunC02.
 
 (** what the property compares: positions dropped, measurements as written,
     configuration = the file part, as a map *)
@@ -141,7 +141,7 @@ Definition out_name : bytes := bs "out".
 Section Run.
 Variable orc : oracle.
 Variable fmt : fmt_table.
-Notation rf := (read_file go_is_space go_is_lower go_is_upper (orc_atoi orc) (orc_pf orc)).
+Notation rf := (read_file_nl go_is_space go_is_lower go_is_upper (orc_atoi orc) (orc_pf orc)).
 
 (** the model's run of a history: edits on the slots, writer on the results *)
 Fixpoint run_hist (st : cstate) (w : wstate) (steps : list hstep) : bool * list wline :=
@@ -361,7 +361,7 @@ Definition corr_ok (c : case) : bool :=
                             | HRes _ name it vals _ => numbers_reprint orc fmt (ObRes name it (map owritten vals) [])
                             | _ => true end) steps
   | KText orc fmt fs paths r1 out rb rberr =>
-      let '(rs, e, _) := files_run go_is_space go_is_lower go_is_upper (orc_atoi orc) (orc_pf orc) fs true paths in
+      let '(rs, e, _) := files_run_nl go_is_space go_is_lower go_is_upper (orc_atoi orc) (orc_pf orc) fs true paths in
       forallb (fun pc => orc_complete orc (snd pc)) fs
       && list_eqb2 (rec_eqb cfg_list_eqb) rs r1
       && reader_agrees orc out rb rberr
@@ -372,11 +372,11 @@ Definition corr_ok (c : case) : bool :=
         if stdin then
           match fs with
           | (_, content) :: _ =>
-              fst (fst (files_run_stdin go_is_space go_is_lower go_is_upper (orc_atoi orc) (orc_pf orc)
+              fst (fst (files_run_stdin_nl go_is_space go_is_lower go_is_upper (orc_atoi orc) (orc_pf orc)
                           [] true [] content))
           | [] => []
           end
-        else fst (fst (files_run go_is_space go_is_lower go_is_upper (orc_atoi orc) (orc_pf orc) fs true paths)) in
+        else fst (fst (files_run_nl go_is_space go_is_lower go_is_upper (orc_atoi orc) (orc_pf orc) fs true paths)) in
       forallb (fun pc => orc_complete orc (snd pc)) fs
       && list_eqb2 (rec_eqb cfg_list_eqb) rs r1
       && reader_agrees orc out rb rberr
